@@ -14,6 +14,7 @@ func init() {
 	register(&Spec{
 		ID: "C05",
 		Explanation: "Decides four structural conditions without which a crashing input exists: R1 no nil handler can be selected (every node with handlers has the 405 and OPTIONS entries: a installs, b reserved keys not deletable by name, c automatic entries deleted only together when nothing else is left); R2 first-byte index coherence (= C03.R1/R2, the children[indexes[b]] access); R3 no explicit panic is reachable from serving/parsing entry points, registration panics carry an error value; R4 guard pairing for data-derived indexing on the serving path; R5 CheckSyntax, URL and registration share one parser; R6 the CORS procedure (which dereferences the matched node) runs only on the served edge, where the node is non-nil. " +
+			"R7 (= C01.R4) the handler Tree.Handler reports as found comes from a comma-ok lookup on a node that has handlers (never a nil handler handed to the call function); R8 (= C07.R3 d, e) a pooled context is released once and not touched afterwards (two requests sharing one context die with concurrent map writes). " +
 			"Not decided: absence of runtime faults for arbitrary bytes in general (no bounds prover in reach; the compiler's prove pass leaves about 100 bounds checks unproven).",
 		Assumptions: commonAssumptions,
 		Run: func(c *Ctx) {
@@ -26,6 +27,8 @@ func init() {
 			ruleGuardedIndexing(c, "R4")
 			ruleOneParser(c, "R5")
 			ruleCorsOnlyServed(c, "R6")
+			ruleHandlerLookup(c, "R7")
+			rulePoolReleaseOnce(c, "R8")
 		},
 	})
 }
